@@ -44,6 +44,24 @@ def r5_1(ctx, R):
                 under_occ = any(v == occ for (_, v) in facts_here)
                 payload = strip_refs(e[2][0])
                 from_occ = payload[0] == "proj" and ("@" + occ) in payload[2]
+                if not (under_occ and from_occ):
+                    # the Occupied test may sit in an inlined helper (`slot.occupied_mut()?`): on every feasible path that
+                    # returns Some, the payload -- evaluated along that path -- is the Occupied variant's field
+                    from lib_flow import sensitive_paths, PathEval
+                    npth = 0
+                    allok = True
+                    for kind_, pth, know in sensitive_paths(a, fl, 2):
+                        if kind_ != "return" or bb not in pth:
+                            continue
+                        r_ = PathEval(a, pth).local_expr(0)
+                        if not (r_[0] == "agg" and r_[1].endswith("Option::Some")):
+                            continue
+                        npth += 1
+                        pl_ = strip_refs(r_[2][0])
+                        if not (("@" + occ) in repr(pl_)):
+                            allok = False
+                    if npth and allok:
+                        under_occ = from_occ = True
                 ctx.ob("R5.1", a, "accessor-some-only-under-occupied#%d" % n, under_occ and from_occ, a.loc(bb),
                        "facts=%s payload=%s" % (sorted(facts_here), expr_str(payload)))
         ctx.floor("R5.1", "accessor-some-returns:" + a.path, n, 1)
